@@ -403,6 +403,13 @@ def main(prop, tier, replay=None):
     t0 = time.time()
     seed = int(os.environ.get("VERIF_SEED", "1"))
     workroot = tempfile.mkdtemp(prefix=f"verif_{prop}_")
+    # temporary files of the code under test (nanite.rate.io.load_hdf5 unpacks the embedded measurement files with
+    # tempfile.mkdtemp and leaves them behind) go below the work root and are removed with it; shard processes and
+    # child interpreters inherit both settings
+    inner_tmp = pathlib.Path(workroot) / "tmp"
+    inner_tmp.mkdir()
+    os.environ["TMPDIR"] = str(inner_tmp)
+    tempfile.tempdir = str(inner_tmp)
     status = 2
     try:
         import_tree()
